@@ -608,3 +608,124 @@ def reach_case(rng, fmt):
             calls.append(c)
     return {"kind": "bed12", "fmt": fmt, "transcripts": ts, "calls": calls, "reach": True,
             "shuffle_seed": rng.randrange(1 << 30) if rng.random() < 0.3 else None}
+
+
+# --- reference files whose record names are equal ignoring letter case / normalisation form -------------------------
+TWIN_NAME_FAMILIES = [
+    ["ctgA", "ctga", "CTGA", "CtgA"], ["chrX", "chrx", "CHRX"], ["MT", "Mt", "mt"], ["scaffold_1", "Scaffold_1", "SCAFFOLD_1"],
+    ["chrUn_KI270302v1", "chrUn_ki270302v1"], ["2L", "2l"],
+    # NFC / NFD (/ compatibility) spellings of one name
+    ["contig\u00e9", "contige\u0301"], ["\u00c51", "A\u030a1", "\u212b1"],
+    # case pairs outside ASCII
+    ["chr\u0130", "chri\u0307", "chrI", "chri"], ["stra\u00dfe", "STRASSE", "strasse"], ["\u03a3x", "\u03c3x", "\u03c2x"],
+]
+
+
+def twin_name_genome(rng, maxlen=400):
+    """2-7 records: 1-2 families of 2-4 names that are equal ignoring letter case or Unicode normalisation form, the
+    records of a family all of the SAME length with independent bases (so that every slice exists in every twin and
+    holds other bases there), plus 0-1 ordinary records; file order random."""
+    seqs = []
+    for fam in rng.sample(TWIN_NAME_FAMILIES, rng.choice([1, 1, 2])):
+        names = rng.sample(fam, rng.randrange(2, min(4, len(fam)) + 1))
+        n = rng.choice([20, 61, 120, rng.randrange(30, maxlen)])
+        width = rng.choice([60, 60, 70, 13, 100])
+        for name in names:
+            s = "".join(rng.choice("ACGT") for _ in range(n)) if rng.random() < 0.5 else bases(rng, n)
+            seqs.append([name, rng.choice(["", "", "twin record"]), s, width])
+    if rng.random() < 0.5:
+        seqs.append([rng.choice(["chr1", "other", "scaffold_12"]), "", bases(rng, rng.randrange(20, maxlen)), 60])
+    rng.shuffle(seqs)
+    return seqs
+
+
+# --- featuretypes that look alike: letter-case twins, twins differing where the requested type has '_' or '%' ---------
+LOOK_FAMILIES = {
+    "exon": ["EXON", "Exon", "eXon"],
+    "CDS": ["cds", "Cds"],
+    "coding_exon": ["coding-exon", "codingXexon", "Coding_exon", "coding.exon", "CODING-EXON"],
+    "five_prime_UTR": ["five-prime-UTR", "five_prime_utr", "fiveXprime_UTR", "five-prime_UTR"],
+    "UTR": ["utr", "Utr"],
+    "ex%n": ["exon", "exZZn", "exn", "EX%N", "ex%N"],
+    "CDS%": ["CDS", "CDS_part", "cds%", "CDSx"],
+    "noncoding_exon": ["noncoding-exon", "Noncoding_Exon", "noncodingexon"],
+}
+LOOK_BLOCKS = ["exon", "exon", "coding_exon", "coding_exon", "ex%n", "noncoding_exon", "five_prime_UTR"]
+LOOK_THICK = ["CDS", "CDS", "five_prime_UTR", "UTR", "CDS%"]
+
+
+def look_transcript(rng, idx, block, thick):
+    """3-8 disjoint segments; each is a child of the block type or of one of its look-alikes (the outermost two mostly
+    of the block type itself: otherwise only a look-alike reaches the transcript boundary); inside segments pieces of
+    the thick type or of one of its look-alikes; look-alike pieces also in the gaps."""
+    strand = rng.choice(["+", "-"])
+    pos = rng.randrange(1, 3000)
+    n = rng.randrange(3, 9)
+    segs = []
+    for _ in range(n):
+        ln = rng.choice([2, 3, rng.randrange(4, 300), rng.randrange(4, 300)])
+        segs.append([pos, pos + ln - 1])
+        pos += ln + rng.choice([0, 1, 2, rng.randrange(3, 500)])
+    children = []
+    twins_b, twins_t = LOOK_FAMILIES[block], LOOK_FAMILIES[thick]
+    boundary = rng.random() < 0.18
+    for i, (s, e) in enumerate(segs):
+        outer = i in (0, n - 1)
+        if outer:
+            ty = rng.choice(twins_b) if boundary and rng.random() < 0.6 else block
+        else:
+            ty = block if rng.random() < 0.5 else rng.choice(twins_b)
+        children.append({"type": ty, "start": s, "end": e})
+        if rng.random() < 0.6:
+            a = rng.randrange(s, e + 1)
+            children.append({"type": thick if rng.random() < 0.5 else rng.choice(twins_t), "start": a, "end": rng.randrange(a, e + 1)})
+    for (s1, e1), (s2, e2) in zip(segs, segs[1:]):
+        if s2 - e1 > 2 and rng.random() < 0.3:
+            a = rng.randrange(e1 + 1, s2)
+            children.append({"type": rng.choice(twins_b + twins_t), "start": a, "end": rng.randrange(a, s2)})
+    tstart, tend = segs[0][0], segs[-1][1]
+    rng.shuffle(children)
+    tid = rng.choice(ID_FORMS) % idx
+    attrs = [["ID", [tid]], ["Parent", ["g%d" % idx]]]
+    if rng.random() < 0.5:
+        attrs.append(["Name", [rng.choice(["nm", "Abc-RA", "x.1"])]])
+    return {"id": tid, "seqid": rng.choice(["chr1", "chr2L", "ctg.7-b"]), "strand": strand, "start": tstart, "end": tend,
+            "score": rng.choice([".", ".", "0", "7"]), "type": rng.choice(["mRNA", "transcript"]), "attrs": attrs,
+            "children": children, "shape": "look-alike at the boundary" if boundary else "spanning"}
+
+
+def lookalike_case(rng):
+    """bed12 calls on GFF3 transcripts whose children carry, next to the requested block / thick types, look-alike types.
+    Requested: the family's base name or (25%) one of the look-alikes itself (then the base name is the look-alike);
+    as str or list; 15% a list of the name and one of its twins.  Selections with two children sharing a start or
+    overlapping are not asked."""
+    ts, calls = [], []
+    for i in range(rng.randrange(1, 4)):
+        block, thick = rng.choice(LOOK_BLOCKS), rng.choice(LOOK_THICK)
+        if thick == block:
+            thick = "CDS"
+        t = look_transcript(rng, i, block, thick)
+        ts.append(t)
+        present = sorted(set(c["type"] for c in t["children"]))
+        for _ in range(rng.randrange(2, 5)):
+            b = [block]
+            if rng.random() < 0.25:
+                b = [rng.choice([x for x in present if x in LOOK_FAMILIES[block]] or [block])]
+            elif rng.random() < 0.15:
+                b = [block, rng.choice(LOOK_FAMILIES[block])]
+            k = [thick]
+            if rng.random() < 0.25:
+                k = [rng.choice([x for x in present if x in LOOK_FAMILIES[thick]] or [thick])]
+            elif rng.random() < 0.1:
+                k = [thick, rng.choice(LOOK_FAMILIES[thick])]
+            if (M.ambiguous_order(t["children"], b) or M.overlapping(t["children"], b) or M.ambiguous_order(t["children"], k)
+                    or M.overlapping(t["children"], k)):
+                continue
+            c = {"t": i, "as": rng.choice(["id", "feature"]), "block": as_argument(rng, b), "thick": as_argument(rng, k),
+                 "thin": None, "name_field": rng.choice(["ID", "Name", "absent_key"]), "color": rng.choice(COLORS),
+                 "to_bed12": rng.random() < 0.3}
+            if not M.select(t["children"], c["block"]):
+                c["as"] = "feature"
+            calls.append(c)
+    return {"kind": "bed12", "fmt": "gff3", "transcripts": ts, "calls": calls, "look": True,
+            "shuffle_seed": rng.randrange(1 << 30) if rng.random() < 0.3 else None}
